@@ -86,6 +86,13 @@ func (p *Program) encodeUnit(c *Contract) *UnitResult {
 			}
 		}
 	}
+	// a package initialiser is verified for its first (only effective) run
+	if fn.Synthetic != "" && fn.Name() == "init" && fn.Pkg != nil {
+		if g, ok := fn.Pkg.Members["init$guard"].(*ssa.Global); ok {
+			name := globalCompName(g)
+			e.emit(fmt.Sprintf("(assert (not %s))", e.comp(st0, name, "Bool")))
+		}
+	}
 	// global invariants of the unit's package and of the packages it imports
 	errs := []string{}
 	for _, g := range p.CS.Globals {
